@@ -316,6 +316,73 @@ func genC17(sg structGen) func(g *Gen, tier string) *Case {
 	}
 }
 
+// genC19: 2-8 live Redis-backed structures of mixed kinds in one database; their histories
+// (creation, updates, queries, re-attachment, import under new keys) are interleaved at random.
+func genC19(g *Gen, tier string) *Case {
+	kinds := []structGen{structGensRedis[2], structGensRedis[0], structGensRedis[1], cuckooRedisGen, structGensRedis[3]} // bloom, cms, hll, cuckoo, topk
+	n := 2 + g.Intn(7)
+	var streams [][]Tok
+	used := map[int]int{}
+	for j := 0; j < n; j++ {
+		k := g.Intn(len(kinds))
+		sg := kinds[k]
+		inst := 3 * used[k]
+		used[k]++
+		g.Small = true
+		ops, pool := sg.build(g, inst, tier)
+		ops = append(ops, sg.queries(g, inst, pool)...)
+		switch g.Intn(4) {
+		case 0: // re-attach and use the second handle
+			ops = append(ops, TL(TNi(opAttach), TNi(inst+1), TNi(inst)))
+			ops = append(ops, sg.extra(g, inst+1, pool)...)
+			ops = append(ops, sg.queries(g, inst, pool)...)
+		case 1: // import under new keys into a second structure of the same kind
+			if k != 3 {
+				ops2, _ := sg.build(g, inst+1, tier)
+				e := 3000 + g.Intn(1000)
+				ops = append(ops, ops2...)
+				imp := TL(TNi(opImport), TNi(inst+1), TNi(e), TNi(1))
+				if k == 0 {
+					imp = TL(TNi(opImport), TNi(inst+1), TNi(e))
+				}
+				ops = append(ops, TL(TNi(opExport), TNi(inst), TNi(e)), imp)
+				ops = append(ops, sg.queries(g, inst, pool)...)
+				ops = append(ops, sg.queries(g, inst+1, pool)...)
+			}
+		}
+		for q := 0; q < 3; q++ {
+			ops = append(ops, sg.extra(g, inst, pool)...)
+			ops = append(ops, sg.queries(g, inst, pool)...)
+		}
+		tagged := make([]Tok, len(ops))
+		for i, op := range ops {
+			tagged[i] = TL(TNi(k), op)
+		}
+		streams = append(streams, tagged)
+	}
+	// random interleaving preserving each stream's order
+	var out []Tok
+	idx := make([]int, len(streams))
+	remaining := 0
+	for _, s := range streams {
+		remaining += len(s)
+	}
+	for remaining > 0 {
+		j := g.Intn(len(streams))
+		if idx[j] >= len(streams[j]) {
+			continue
+		}
+		burst := 1 + g.Intn(4)
+		for b := 0; b < burst && idx[j] < len(streams[j]); b++ {
+			out = append(out, streams[j][idx[j]])
+			idx[j]++
+			remaining--
+		}
+	}
+	g.Small = false
+	return &Case{Ops: out}
+}
+
 // genC09: a Redis-backed structure on instance 0; a second handle (instance 1) is obtained from its
 // metadata key at a random point; further operations go through either handle, and after each one
 // both handles answer the same queries. Variant: the structure first imports another export
